@@ -34,9 +34,9 @@ const (
 )
 
 type (
-	FileMode = fs.FileMode
-	FileInfo = fs.FileInfo
-	DirEntry = fs.DirEntry
+	FileMode  = fs.FileMode
+	FileInfo  = fs.FileInfo
+	DirEntry  = fs.DirEntry
 	PathError = fs.PathError
 )
 
@@ -64,10 +64,10 @@ var (
 )
 
 type inode struct {
-	id    int
-	vol   []byte // content as the running system sees it
-	dur   []byte // content as of the last fsync of the file
-	synced bool  // vol == dur (no un-fsynced data)
+	id     int
+	vol    []byte // content as the running system sees it
+	dur    []byte // content as of the last fsync of the file
+	synced bool   // vol == dur (no un-fsynced data)
 }
 
 // DirOp is a directory mutation not yet made durable by an fsync of the directory.
@@ -155,9 +155,14 @@ type fileInfo struct {
 	isDir bool
 }
 
-func (i fileInfo) Name() string       { return i.name }
-func (i fileInfo) Size() int64        { return i.size }
-func (i fileInfo) Mode() fs.FileMode  { if i.isDir { return fs.ModeDir | 0o755 }; return 0o600 }
+func (i fileInfo) Name() string { return i.name }
+func (i fileInfo) Size() int64  { return i.size }
+func (i fileInfo) Mode() fs.FileMode {
+	if i.isDir {
+		return fs.ModeDir | 0o755
+	}
+	return 0o600
+}
 func (i fileInfo) ModTime() time.Time { return time.Time{} }
 func (i fileInfo) IsDir() bool        { return i.isDir }
 func (i fileInfo) Sys() any           { return nil }
